@@ -200,6 +200,18 @@ def terminator_tables(ctx, prog):
                 constraints=[table.found_fits(f, LT, LD)])
 
 
+def _local_helpers(prog, mod, keep=()):
+    """loop-free private helper functions of the iterator's own module: inlined, so that extracting/merging a helper is not
+    mistaken for a change of behaviour"""
+    out = set()
+    for key, bs in prog.by_key.items():
+        if key.startswith(mod) and key not in keep and "::" not in key[len(mod):]:
+            for b_ in bs:
+                if b_.rec.get("vis") != "pub" and not b_.loops():
+                    out.add(key)
+    return out
+
+
 def misc(ctx, prog):
     pv = prov.Prov(prog)
     # constructors
@@ -207,7 +219,7 @@ def misc(ctx, prog):
         b = ctx.anchor(prog, mod + fn)
         if b is None:
             continue
-        paths = sym.paths_of(b, prog)
+        paths = sym.paths_of(b, prog, inline=_local_helpers(prog, mod))
         key = "%s|%s" % (prog.config, fn)
         pn = call(S + "pattern::PatternNorm::new", ("p", 2))
         ld = ("len", call(S + "pattern::PatternNorm::as_str", ("ref", pn)))
@@ -246,6 +258,17 @@ def misc(ctx, prog):
         ps = sym.paths_of(b, prog)
         c = call(ST + "split_terminator", ("p", 1), ("p", 2))
         ok = len(ps) == 1 and table.strip_gargs(ps[0].value)[2:] == (("field", c, 0), ("field", c, 1)) and "RSplitTerminator" in ps[0].value[1]
+        if not ok:
+            # not literally `split_terminator(..)`'s fields: accept any body that builds the same (this, state) as split_terminator
+            # does once both are inlined (module-local helpers and each other)
+            hs = _local_helpers(prog, ST) | {ST + "split_terminator"}
+            fwd = ctx.anchor(prog, ST + "split_terminator")
+
+            def tab(bb):
+                return sorted((repr(tuple(sorted(map(repr, (table.norm_atom(c_) for c_ in p_.conds))))), p_.kind,
+                               repr(table.strip_gargs(p_.value)).replace("RSplitTerminator", "SplitTerminator"))
+                              for p_ in sym.paths_of(bb, prog, inline=hs))
+            ok = fwd is not None and tab(b) == tab(fwd) and all("RSplitTerminator" in repr(p_.value) for p_ in sym.paths_of(b, prog, inline=hs))
         if not ok:
             ctx.violation("DLG", prog.config + "|rsplit_terminator", "rsplit_terminator is %s, expected the fields of split_terminator(this, delim)" % show(ps[0].value), b.file())
         ctx.instance("DLG", prog.config + "|rsplit_terminator")
